@@ -710,11 +710,21 @@ def c13_twice_case(r, seed):
         o.ctx = ctx
         o.poison = "hunks"
         o.poison_want = sorted(r.sample([0, 1], r.randint(1, 2)))
-    pt = wsgen.PatchSpec("p-twice.patch", [o1, o2], 1, False, git)
+    ops = [o1, o2]
+    t0 = {name: (b"".join(v0), 0o644), "other.txt": (b"o1\no2\n", 0o644)}
+    if r.random() < 0.5:
+        # ... with a failing file patch for another file between the two
+        ob = wsgen.Op("modify", "between.c", pre=b"b1\nb2\nb3\n", post=b"b1\nB2\nb3\n", pre_mode=0o644, post_mode=0o644)
+        ob.style = "git" if git else "plain"
+        ob.ctx = ctx
+        ob.poison = "hunks"
+        ob.poison_want = [0]
+        ops = [o1, ob, o2]
+        t0["between.c"] = (ob.pre, 0o644)
+    pt = wsgen.PatchSpec("p-twice.patch", ops, 1, False, git)
     wsgen.render_patch(pt, r)
     if len(o1.hunks) != 2 or len(o2.hunks) != 2:
         return None
-    t0 = {name: (b"".join(v0), 0o644), "other.txt": (b"o1\no2\n", 0o644)}
     ws = wsgen.Workspace()
     ws.seed = seed
     ws.t0 = t0
@@ -1006,6 +1016,15 @@ def c10_worker(item):
         for opt in r.sample([["-F", str(r.choice([1, 2, 3]))], ["-A", "multiapply"], ["--mmap"], ["--stats"], ["--color", "always"], ["--backup-count", r.choice(["0", "1", "all"])]], r.randint(1, 3)):
             extra += opt
         res.count("dry-runs-with-other-options")
+    if goal == ["-a"] and r.random() < 0.06:
+        # a creation whose names are stripped away entirely (-p9): whatever the tool makes of it, the dry run must agree
+        # with the real run and write nothing
+        pz = wsgen.PatchSpec("pzz-overstripped.patch", [], 9, False, False)
+        pz.text = b"--- /dev/null\n+++ b/deep/er/new.txt\n@@ -0,0 +1,2 @@\n+brand\n+new\n"
+        pz.series_line = pz.name + " -p9"
+        pz.prefix_style = "plain"
+        ws.patches.append(pz)
+        res.count("series-with-a-creation-whose-name-is-stripped-away")
     common_args = base_args(threads=threads, backup=backup, verbosity=verbosity, extra=extra)
     dry = common_args + ["--dry-run", "push"] + goal
     real = common_args + ["push"] + goal
@@ -1114,6 +1133,18 @@ def c15_worker(item):
                 os.link(src, dst)
             elif len(held) < 64:
                 held[p] = os.open(os.fsencode(src), os.O_RDONLY)
+        # stale rejects of an earlier run where this run will write its own, hard-linked into the twin like every other file
+        if ws.fail_at is not None and r.random() < 0.5:
+            for rp in expected_rejects(ws, ws.fail_at):
+                parent = os.path.dirname(rp)
+                if (parent == "" or (any(os.path.dirname(q) == parent for q in ws.trees[ws.fail_at]) and any(os.path.dirname(q) == parent for q in ws.trees[0]))) and r.random() < 0.7:
+                    src = os.path.join(os.fsencode(work), rp.encode("utf-8", "surrogateescape"))
+                    dst = os.path.join(os.fsencode(twin), rp.encode("utf-8", "surrogateescape"))
+                    with open(src, "wb") as f:
+                        f.write(b"--- a/stale\n+++ b/stale\n@@ -1 +1 @@\n-stale\n+STALE\n" * 5)
+                    os.makedirs(os.path.dirname(dst), exist_ok=True)
+                    os.link(src, dst)
+                    res.count("stale-rejects-hard-linked-into-the-twin")
         res.count("twin:%s" % twin_mode)
         before = runner.snapshot(work, with_meta=True)
         twin_before = runner.snapshot(twin, with_meta=True)
@@ -2359,6 +2390,19 @@ def c06_worker(item):
         # (a hunk-less git section goes last: in front of a plain section its header would swallow that section's ---/+++ lines
         # and the patch would no longer parse, which is outside this property)
         pt.text = (pt.text + extra) if (extra.startswith(b"diff --git") and b"rename from" in extra) or r.random() < 0.5 else (extra + pt.text)
+        if r.random() < 0.35:
+            # ... and another one AT OR BEFORE the failing patch (the same name, or a second directory): that error counts -
+            # the single-threaded run ends with it and saves nothing - whatever else a worker that ran ahead may have met
+            i = r.randrange(0, ws.fail_at + 1)
+            pi_ = ws.patches[i]
+            zn = r.choice(["zdir", "zdir2"])
+            if zn == "zdir2":
+                for t in ws.trees:
+                    t["zdir2/inner.txt"] = (b"inner\n", 0o644)
+            a2, b2 = wsgen._prefix(pi_.strip, "a") + zn, wsgen._prefix(pi_.strip, "b") + zn
+            extra2 = (b"diff --git %s %s\n" % (a2.encode(), b2.encode()) if pi_.git else b"") + b"--- %s\n+++ %s\n@@ -1 +1 @@\n-x\n+y\n" % (a2.encode(), b2.encode())
+            pi_.text = pi_.text + extra2
+            res.count("shape:unloadable-names-on-both-sides-of-the-failing-patch")
     nthreads = r.choice([2, 3, 4, 8, 16])
     backup = r.choice(["always", None, "never"])
     bcount = r.choice([None, None, None, 0, 1, 2, "all"])
